@@ -532,7 +532,12 @@ fn main() {
         cross,
     };
     let mut scenarios = if ctx.quick() {
-        vec![sc(&["U0", "U1", "B0"], 3, 2, false)]
+        vec![
+            sc(&["U0", "U1", "B0"], 3, 2, false),
+            // one base, two parameter sets, one step deeper: histories such as
+            // "prepare under P0 ; switch to P1 ; prove with the held preparation"
+            sc(&["B0"], 2, 3, false),
+        ]
     } else {
         vec![
             // wider alphabet (second batch shape, `_cross` entry point), same depth as quick
